@@ -382,46 +382,39 @@ fn size_strategy(block: u32, max: usize) -> BoxedStrategy<usize> {
     .boxed()
 }
 
-pub fn run(tier: Tier) -> i32 {
-    let ctx = Ctx::new(P, "exploration", tier);
-    let mut stats = Stats::new();
-    stats.sample_cap = 6;
-    let quiet = Quiet::new();
-    crate::run_regressions(&ctx, &mut stats, replay_noquiet);
-    let t: Arc<Table> = crate::table();
-    let max_size: usize = tier.pick(16 << 10, 200 << 10);
-    let ncases: u32 = tier.pick(8_000, 150_000);
-    let s = ctx.shards("upload", 32, |_i, seed, st| {
-        let block = prop_oneof![
-            3 => proptest::sample::select(vec![1u32, 2, 127, 128, 129, 254, 255, 256, 257, 1024, 32768]),
-            2 => 1u32..=32768,
-            2 => 1u32..=600,
-        ];
-        let strat = block.prop_flat_map(move |block| {
-            let file = (prop_oneof![6 => 0usize..21, 1 => 100usize..105], size_strategy(block, max_size), any::<u8>()).prop_map(|(which, size, seed)| FileSpec { which, size, seed });
-            let req = (
-                prop_oneof![8 => proptest::sample::select(RECOGNISED.iter().map(|r| r.1).collect::<Vec<u8>>()), 1 => any::<u8>()],
-                prop_oneof![
-                    3 => Just(0u32),
-                    3 => (0u32..8).prop_map(move |k| k.saturating_mul(block)),
-                    3 => 0u32..(max_size as u32 + 10),
-                    1 => proptest::sample::select(vec![u32::MAX, 1 << 31, (1u32 << 31) + 5, 0x7fff_ffff]),
-                ],
-                prop_oneof![150 => Just(""), 1 => Just("no-id"), 1 => Just("no-offset"), 1 => Just("no-file"), 1 => Just("no-tlv")],
-                any::<u16>(),
-            );
-            (
-                proptest::collection::vec(file, 0..6),
-                Just(block),
-                0u32..=999_999,
-                proptest::collection::vec(req, 0..30),
-                prop_oneof![3 => Just("completion"), 1 => Just("abort")],
-                prop_oneof![3 => Just(vec![]), 1 => Just(vec![1usize]), 1 => proptest::collection::vec(1usize..40, 1..5)],
-            )
-        });
-        ctx.proptest(seed, ncases / 32, &strat, st, |(files, block, password, reqs, ending, chunks), st| {
+/// Generator of whole upload cases (payload directory, block size, password, request script, ending, chunking).
+pub fn upload_case_strategy(max_size: usize) -> BoxedStrategy<UploadCase> {
+    let block = prop_oneof![
+        3 => proptest::sample::select(vec![1u32, 2, 127, 128, 129, 254, 255, 256, 257, 1024, 32768]),
+        2 => 1u32..=32768,
+        2 => 1u32..=600,
+    ];
+    let strat = block.prop_flat_map(move |block| {
+        let file = (prop_oneof![6 => 0usize..21, 1 => 100usize..105], size_strategy(block, max_size), any::<u8>()).prop_map(|(which, size, seed)| FileSpec { which, size, seed });
+        let req = (
+            prop_oneof![8 => proptest::sample::select(RECOGNISED.iter().map(|r| r.1).collect::<Vec<u8>>()), 1 => any::<u8>()],
+            prop_oneof![
+                3 => Just(0u32),
+                3 => (0u32..8).prop_map(move |k| k.saturating_mul(block)),
+                3 => 0u32..(max_size as u32 + 10),
+                1 => proptest::sample::select(vec![u32::MAX, 1 << 31, (1u32 << 31) + 5, 0x7fff_ffff]),
+            ],
+            prop_oneof![150 => Just(""), 1 => Just("no-id"), 1 => Just("no-offset"), 1 => Just("no-file"), 1 => Just("no-tlv")],
+            any::<u16>(),
+        );
+        (
+            proptest::collection::vec(file, 0..6),
+            Just(block),
+            0u32..=999_999,
+            proptest::collection::vec(req, 0..30),
+            prop_oneof![3 => Just("completion"), 1 => Just("abort")],
+            prop_oneof![3 => Just(vec![]), 1 => Just(vec![1usize]), 1 => proptest::collection::vec(1usize..40, 1..5)],
+        )
+    });
+    strat
+        .prop_map(|(files, block, password, reqs, ending, chunks)| {
             // requests: mostly aimed at files that exist, offsets relative to their sizes
-            let present: Vec<(u8, usize)> = files.iter().filter(|f| f.which < 100).map(|f| (RECOGNISED[f.which % 21].1, f.size)).collect();
+            let present = present_of(&files);
             let requests: Vec<Req> = reqs
                 .iter()
                 .map(|(id, off, mal, sel)| {
@@ -435,7 +428,28 @@ pub fn run(tier: Tier) -> i32 {
                     Req { id, offset, malformed: mal.to_string() }
                 })
                 .collect();
-            let c = UploadCase { files: files.clone(), block: *block, password: *password, requests, ending: ending.to_string(), chunks: chunks.clone() };
+            UploadCase { files, block, password, requests, ending: ending.to_string(), chunks }
+        })
+        .boxed()
+}
+pub fn present_of(files: &[FileSpec]) -> Vec<(u8, usize)> {
+    files.iter().filter(|f| f.which < 100).map(|f| (RECOGNISED[f.which % 21].1, f.size)).collect()
+}
+
+pub fn run(tier: Tier) -> i32 {
+    let ctx = Ctx::new(P, "exploration", tier);
+    let mut stats = Stats::new();
+    stats.sample_cap = 6;
+    let quiet = Quiet::new();
+    crate::run_regressions(&ctx, &mut stats, replay_noquiet);
+    let t: Arc<Table> = crate::table();
+    let max_size: usize = tier.pick(16 << 10, 200 << 10);
+    let ncases: u32 = tier.pick(8_000, 150_000);
+    let s = ctx.shards("upload", 32, |_i, seed, st| {
+        let strat = upload_case_strategy(max_size);
+        ctx.proptest(seed, ncases / 32, &strat, st, |c, st| {
+            let present = present_of(&c.files);
+            let (files, block) = (&c.files, &c.block);
             let distinct_present: std::collections::BTreeSet<u8> = present.iter().map(|p| p.0).collect();
             let crosses_eof = c.requests.iter().any(|r| r.offset > 0 && present.iter().any(|(id, size)| *id == r.id && (r.offset as usize) < *size && r.offset as usize + *block as usize > *size));
             st.case(distinct_present.len() >= 2 && crosses_eof, fnv(&serde_json::to_vec(&c).unwrap()));
@@ -460,7 +474,7 @@ pub fn run(tier: Tier) -> i32 {
             if st.samples.len() < 1 && distinct_present.len() >= 2 && c.requests.len() >= 2 {
                 st.sample(|| serde_json::to_value(&c).unwrap());
             }
-            check_upload(&t, &c)
+            check_upload(&t, c)
         });
     });
     stats.merge(s);
